@@ -134,13 +134,14 @@ pub fn c01(cfg: &Cfg, idx: u64, st: &mut Stats) {
             Tier::Thorough => 3_000_000,
         };
         let fanout = *rng.pick(&[2u32, 26, 256]);
-        let fam = KeyFamily { n, fanout, keylen: 14, seed: rng.next_u64() };
+        let fam = KeyFamily { n, fanout, keylen: 14, seed: rng.next_u64(), pairs: idx % 2 == 1 };
         let case = MemBuildCase {
             fam,
             map: idx % 2 == 0,
             registry: if idx % 3 == 0 { None } else { gen::geometry(&mut rng) },
             bufcap: None,
             every: 1000,
+            shape: Shape::Random { short_16: 3, intr_16: 1 },
         };
         st.report("C01", &Case::MemBuild(case));
         return;
@@ -884,11 +885,21 @@ pub fn c13_cases(cfg: &Cfg) -> Vec<MemBuildCase> {
     let seed = mix(cfg.seed, tag_of("C13"), 0);
     let geos: [Option<(usize, usize)>; 4] = [None, Some((64, 2)), Some((5, 7)), Some((1, 1))];
     let ns: &[u64] = &[10_000, 100_000, 1_000_000];
+    let shapes = [
+        Shape::Random { short_16: 2, intr_16: 1 },
+        Shape::Cap(4096),
+        Shape::Cap(7),
+        Shape::Full,
+        Shape::Cap(600),
+    ];
+    let mut si = 0;
     for &n in ns {
         for map in [false, true] {
             for g in geos {
+                si += 1;
                 out.push(MemBuildCase {
-                    fam: KeyFamily { n, fanout: 26, keylen: 12, seed: seed ^ n },
+                    shape: shapes[si % shapes.len()],
+                    fam: KeyFamily { n, fanout: 26, keylen: 12, seed: seed ^ n, pairs: g.map_or(false, |g| g.0 == 5) || (map && g.is_none()) },
                     map,
                     registry: g,
                     bufcap: if map { None } else { Some(4096) },
@@ -901,21 +912,23 @@ pub fn c13_cases(cfg: &Cfg) -> Vec<MemBuildCase> {
         for (f, l) in [(2u32, 40u32), (10, 16), (64, 24), (256, 64), (256, 8)] {
             for g in [None, Some((128, 2)), Some((0, 0))] {
                 out.push(MemBuildCase {
-                    fam: KeyFamily { n: 2_000_000, fanout: f, keylen: l, seed: seed ^ f as u64 },
+                    fam: KeyFamily { n: 2_000_000, fanout: f, keylen: l, seed: seed ^ f as u64, pairs: l % 16 == 0 },
                     map: f % 4 == 0,
                     registry: g,
                     bufcap: None,
                     every: 1000,
+                    shape: if l % 16 == 0 { Shape::Cap(4096) } else { Shape::Random { short_16: 2, intr_16: 1 } },
                 });
             }
         }
         for map in [false, true] {
             out.push(MemBuildCase {
-                fam: KeyFamily { n: 10_000_000, fanout: 26, keylen: 12, seed: seed ^ 77 },
+                fam: KeyFamily { n: 10_000_000, fanout: 26, keylen: 12, seed: seed ^ 77, pairs: map },
                 map,
                 registry: None,
                 bufcap: None,
                 every: 1000,
+                shape: if map { Shape::Cap(4096) } else { Shape::Random { short_16: 2, intr_16: 1 } },
             });
         }
     }
